@@ -315,6 +315,23 @@ Theorem C18_single_term :
     else PErr.
 Proof. exact parse_single_term. Qed.
 
+(* ... and in the declarative vocabulary of (2): its three range premises are NECESSARY as well — a well-formed string is
+   accepted (with the sum of its terms) if and only if they hold, and is Err otherwise.  (2) + this = the exact acceptance
+   condition of every well-formed duration string *)
+Theorem C18_wellformed_iff :
+  forall ts, Forall wf_term ts ->
+    (parse (render_terms ts) = POk (sumf t_months ts) (fixed_ns ts)
+     <-> (Forall term_in_range ts /\ partial_sums_in_range ts /\ total_in_range ts))
+    /\ (parse (render_terms ts) = PErr
+        <-> ~ (Forall term_in_range ts /\ partial_sums_in_range ts /\ total_in_range ts)).
+Proof. exact parse_wellformed_iff. Qed.
+
+Theorem C18_wellformed_value_unique :
+  forall ts m ns, Forall wf_term ts -> parse (render_terms ts) = POk m ns ->
+    (Forall term_in_range ts /\ partial_sums_in_range ts /\ total_in_range ts)
+    /\ m = sumf t_months ts /\ ns = fixed_ns ts.
+Proof. exact parse_ok_ranges. Qed.
+
 (* ---- (6) sign runs; Debug / Display text is never a duration ------------------------------------------------------ *)
 Theorem C18_two_nondigit_head :
   forall c1 c2 r, is_digit c1 = false -> is_digit c2 = false -> parse (c1 :: c2 :: r) = PErr.
@@ -404,6 +421,16 @@ Proof.
   split; [repeat constructor; discriminate|]. repeat split; vm_compute; reflexivity.
 Qed.
 
+Example C18_ex_audit_iff :
+  (* "2147483647mo1mo": every term in range, the running month sum is not -> the premises fail -> Err *)
+  let ts := [mk_term None [50;49;52;55;52;56;51;54;52;55] Umo; mk_term None [49] Umo] in
+  Forall wf_term ts /\ Forall term_in_range ts /\ ~ partial_sums_in_range ts /\ parse (render_terms ts) = PErr.
+Proof.
+  cbv zeta. split; [repeat constructor; discriminate|]. split; [repeat constructor|].
+  split; [|vm_compute; reflexivity].
+  intros H. destruct (H 2%nat ltac:(cbn; lia)) as [H1 _]. vm_compute in H1. discriminate H1.
+Qed.
+
 Example C18_ex_audit_heads :
   is_digit 45 = false /\ parse [45; 45; 49; 100] = PErr /\ parse [43; 45; 49; 100] = PErr
   /\ unit_of [109; 111] = Some Umo /\ unit_of [77; 83] = None /\ unit_of [109; 105; 110] = None
@@ -451,6 +478,8 @@ Print Assumptions C18_unit_table.
 Print Assumptions C18_wellformed_run.
 Print Assumptions C18_wellformed_ok_iff.
 Print Assumptions C18_wellformed_err_iff.
+Print Assumptions C18_wellformed_iff.
+Print Assumptions C18_wellformed_value_unique.
 Print Assumptions C18_number_overflow_err.
 Print Assumptions C18_single_term.
 Print Assumptions C18_two_nondigit_head.
